@@ -45,7 +45,28 @@ class ME(NodeMixin):
         return False
 
 
-CLS = {"mixin": M, "light": L, "mixin_eq": ME}
+class LEQ(LightNodeMixin):
+    """LightNodeMixin class with value/container semantics"""
+
+    __slots__ = ("i",)
+
+    def __init__(self, i):
+        self.i = i
+
+    def __eq__(self, other):
+        return True
+
+    def __ne__(self, other):
+        return False
+
+    def __hash__(self):
+        return 6
+
+    def __len__(self):
+        return 0
+
+
+CLS = {"mixin": M, "light": L, "mixin_eq": ME, "light_eq": LEQ}
 
 
 def _x(nodes, v):
@@ -136,8 +157,8 @@ def _check_all(nodes, parent, children, cls, info):
     n = len(nodes)
     for i in range(n):
         exp = definitions(parent, children, i)
-        got, types_ok = observed(nodes, nodes[i], cls is not L)
-        if cls is not L:
+        got, types_ok = observed(nodes, nodes[i], cls not in (L, LEQ))
+        if cls not in (L, LEQ):
             exp["anchestors"] = exp["ancestors"]
         if got != exp:
             d = [k for k in exp if got.get(k) != exp[k]]
